@@ -34,17 +34,28 @@ fn write_file
 )
 -> Result<(), ReadWriteError>
 {
-    match system.create_file(file_path)
+    /*  Write a temporary file and rename it into place, so that a kill part-way leaves the
+        previous file (or none) behind and never a truncated one, which the next invocation
+        could not interpret. */
+    let temp_file_path = format!("{}.tmp", file_path);
+
+    match system.create_file(&temp_file_path)
     {
         Ok(mut file) =>
         {
             match file.write_all(&content)
             {
-                Ok(_) => return Ok(()),
+                Ok(_) => {},
                 Err(error) => return Err(ReadWriteError::IOError(format!("{}", error))),
             }
         }
         Err(error) => return Err(ReadWriteError::SystemError(error)),
+    }
+
+    match system.rename(&temp_file_path, file_path)
+    {
+        Ok(_) => Ok(()),
+        Err(error) => Err(ReadWriteError::SystemError(error)),
     }
 }
 
